@@ -503,7 +503,7 @@ func c13EndToEnd(r *hx.Run, rnd *rand.Rand, n int) {
 }
 
 func c13(r *hx.Run) {
-	r.Rule = "exhaustive table at the Fill level: accept (14 values incl. tokens containing 'gzip') x stored subset of raw/gzip/br (7) x raw size {min-1,min,min+1,min+4000} x min {1024,100} x filter {default,custom} x 6 content types x {direct, after Cacheable()}, N random bodies per cell, against the table of the statement/docs (where raw and visible lengths straddle the threshold both outcomes are accepted); then end-to-end through servers with default/configured thresholds and filters (two of them with an LRU of 8 entries over a store, earlier keys revisited after eviction so that they are served from their reloaded records; two that received their threshold and filter - set, changed or removed - through a reload of the running server; upstreams that answer gzip or br encoded themselves; lifetimes from 1 s to a day; hits on one stored version with one Accept-Encoding must always get the same encoding, over HTTP/1.1 and over HTTP/1.0): text, repetitive and incompressible bodies, 4 requests per key with random Accept-Encoding, compressor call counters around every hit, stored variants compared with the best-compression profile's output. Non-trivial/distinct = table cell / e2e key class."
+	r.Rule = "exhaustive table at the Fill level: accept (14 values incl. tokens containing 'gzip') x stored subset of raw/gzip/br (7) x raw size {min-1,min,min+1,min+4000} x min {1024,100} x filter {default,custom} x 6 content types x {direct, after Cacheable()}, N random bodies per cell, against the table of the statement/docs (where raw and visible lengths straddle the threshold both outcomes are accepted); then end-to-end through servers with default/configured thresholds and filters, Content-Type values with parameters, sloppy parameter syntax and upper case (two of them with an LRU of 8 entries over a store, earlier keys revisited after eviction so that they are served from their reloaded records; two that received their threshold and filter - set, changed or removed - through a reload of the running server; upstreams that answer gzip or br encoded themselves; lifetimes from 1 s to a day; hits on one stored version with one Accept-Encoding must always get the same encoding, over HTTP/1.1 and over HTTP/1.0): text, repetitive and incompressible bodies, 4 requests per key with random Accept-Encoding, compressor call counters around every hit, stored variants compared with the best-compression profile's output. Non-trivial/distinct = table cell / e2e key class."
 	r.Assume = []string{"Accept-Encoding is a plain list of codings (no q-values)", "gzip/brotli encoders are deterministic (same level => same bytes)"}
 	rnd := rand.New(rand.NewSource(r.Seed))
 	c13Table(r, rnd, r.Pick(1, 20))
